@@ -342,7 +342,7 @@ func c11Case(r *core.Run, idx int, rng *rand.Rand) {
 			r.Count("issuer_checked_logout", 1)
 		}
 		// attribute query
-		u := randUser(rng, fmt.Sprintf("UMK%dh%dx", idx, hi), false)
+		u := randUser(rng, fmt.Sprintf("U_MK%dh%dx", idx, hi), false)
 		e.W.AddUser(u)
 		q := conformantQuery(rng, spd, u.Username)
 		q.Destination = attrLoc
